@@ -19,7 +19,8 @@ func init() {
 			"R10b release-before-read: in every Ingester.Read, every path to the format reader's Read either releases the previous raw record or passes the edge on which the holder is nil; the holder is cleared after the release. " +
 			"R10c a per-record failure does not disturb the reader: on the ParseNode-failed branch of Ingester.Read the only format-reader method reachable is FmtErr, and every FmtErr implementation in the repository is store-free (no write through its receiver or to globals, transitively). " +
 			"R10d closed allow-list of process-wide mutable state on the run set: no store rooted at a package-level variable; globals read have init-only writers; objects in globals are used only via sync.Pool / sync/atomic / LoadingCache.Get. " +
-			"R10e reader-owned buffers: in the flat-file readers the number of buffered lines converted into a node equals the number popped (structurally equal pure expressions), so no line of a previous record is re-read and none is skipped.",
+			"R10e reader-owned buffers: in the flat-file readers the number of buffered lines converted into a node equals the number popped (structurally equal pure expressions), so no line of a previous record is re-read and none is skipped. " +
+			"R10f pooled nodes are blank (= C12 R12b–d): a recycled node carries nothing from the record or transform that used it before. R10g the bytes returned for a record are nil or a fresh json.Marshal result, never a slice of a reused buffer (earlier results must not change when later records are read).",
 		NotDecided: "the algebraic law itself (concatenation/permutation of runs); schemas addressing ancestors (outside the property's quantifier); state kept inside third-party decoders.",
 		Trusted:    commonTrusted,
 		Run:        runC10,
@@ -79,6 +80,18 @@ func runC10(c *core.Ctx) {
 
 	// ---------------- R10e
 	c10PopEqualsConverted(c)
+
+	// ---------------- R10f pooled nodes are blank (a recycled node must not carry a previous record's or transform's data)
+	if r12 := resolveC12(c); r12 != nil {
+		c12PoolRules(c, r12, c.RepoFunctions(), c12AllowedWriters(r12), "R10f", "R10f", "R10f")
+	}
+	c.Floor("R10f", 15, "reset exhaustiveness and pool discipline")
+
+	// ---------------- R10g emitted bytes are fresh per record
+	if er := ecResolve(c, "R10g"); er.ok {
+		c01FreshBytes(c, er, "R10g")
+	}
+	c.Floor("R10g", 3, "returns of the built-in Ingester.Read")
 }
 
 // c10FreshCtx (R10a): the evaluation context and its result cache live for exactly one record. Shared with
